@@ -909,10 +909,15 @@ def run(ctx):
         cj = cj[:4 if quick else 40]
         if not cj:
             continue
-        es = "; ".join("((%d)%%Z, %s)" % (e["t"], "None" if e["message"] is None else '(Some "%s")' % hx(e["message"])) for e in fx["entries"])
-        cs = ";\n".join('(%s, %s, "%s")' % (zopt(j["A"]), zopt(j["B"]), hx(j["out"])) for j in cj)
+        edefs = "".join("Definition m%d : (Z * option (list int)) := ((%d)%%Z, %s).\n" % (k, e["t"], "None" if e["message"] is None else "(Some %s)" % c09_render.pack(e["message"]))
+                        for k, e in enumerate(fx["entries"]))
+        # the list of entry names in pieces (a literal of thousands of elements overflows coqc's stack)
+        names = ["m%d" % k for k in range(len(fx["entries"]))]
+        es = " ++ ".join("[" + "; ".join(names[k:k + 500]) + "]" for k in range(0, len(names), 500)) or "[]"
+        cdefs = "".join("Definition c%d : (option Z * option Z * list int) := (%s, %s, %s).\n" % (k, zopt(j["A"]), zopt(j["B"]), c09_render.pack(j["out"])) for k, j in enumerate(cj))
         cat_run_cases += len(cj)
-        crtexts.append((HDR + "Definition es : list (Z * option string) := [%s].\nDefinition cases : list (option Z * option Z * string) := [\n%s\n].\nEval vm_compute in (cat_run_bad es cases).\n" % (es, cs), cj))
+        crtexts.append((c09_render.HDR + edefs + "Definition es := %s.\n" % es + cdefs
+                        + "Definition cases := [%s].\nEval vm_compute in (cat_run_bad_p es cases).\n" % "; ".join("c%d" % k for k in range(len(cj))), cj))
     groups["cat_run"] = ("whole cat run", crtexts)
     # python parser twin vs Coq parser
     blobs = [fx["slices"][i] for fx, i in sample]
